@@ -44,3 +44,25 @@ claim('C11',
       "denominator on data containing zeros unless a zero guard selects 0 first.",
       "Trusted: numpy-subset model incl. the 1-D map-loops; exact algebra; weighted AM-GM-HM theorem for the ordering clause.",
       "abstract interpretation of the AST + exact identity checking + sign / zero-domain analysis", "DESIGN.md 5 C11")
+
+claim('C04',
+      "Static: solvePDE and solveMatrixPDE are interpreted symbolically with a recording solver in place of spsolve/externalsolver; the system that "
+      "reaches the solver is proved, row by row (generic, boundary-adjacent and ghost cells, all 9 classes), to be the cached boundary system plus "
+      "every matrix/vector/pair term exactly once (including negated and scaled terms); one solver call, identical for both solvers; C-order reshape "
+      "into the variable passed in, ghost values re-imposed, same object returned; cached system and terms unwritten (effect events); every term "
+      "builder emits interior rows only; an explicit-solver result is accepted.",
+      "Trusted: numpy-subset model with the ndarray/sparse in-place kind distinction; the solver returns the solution of M x = RHS.",
+      "abstract interpretation of pdesolver.py with a recording solver + row-wise exact comparison; effect (write) events", "DESIGN.md 5 C04")
+claim('C12',
+      "Static: transientTerm is interpreted through the real CellVariable constructor/operator chain for scalar and field alpha on all 9 classes and "
+      "proved to give exactly the diagonal alpha_P/dt and right-hand side alpha_P*phi_old,P/dt (no other entries); solveExplicitPDE is interpreted "
+      "symbolically and proved to return a new variable with old+dt*RHS inside and the boundary formula outside, leaving its input unwritten.",
+      "Trusted: numpy-subset model; exact algebra. Limits dt->0/inf and O(dt^2) are not decided (corollaries of T1 with C04 / out of reach).",
+      "abstract interpretation of source.py / pdesolver.py / cell.py + exact identity checking + effect events", "DESIGN.md 5 C12")
+claim('C16',
+      "Static: partial evaluation of the syntax tree with concrete Python-level configuration and symbolic data: label properties (9 classes x 6 labels "
+      "x get/set, CellProp and FaceVariable), radial-periodic flag valuations, initial-value shape families, constructor arities 0..7, coefficient and "
+      "term types; the outcome of each path is the exception class it raises or a normal return, compared with the documented table. Dispatcher "
+      "coverage from the evaluated if/elif chains.",
+      "Trusted: the interpreter's model of Python semantics for tuple indexing, unbound locals, attribute lookup, broadcasting errors.",
+      "partial evaluation of the AST per configuration (exception outcome analysis)", "DESIGN.md 5 C16")
